@@ -1,4 +1,99 @@
-import PsiModel.PData
+import PsiProofs.Helper.C11_Getitem
+/-!
+# C11 — annotated arrays keep time base, channel labels and metadata aligned
+
+Property theorems about the model `PsiModel/PData.lean` (repaired code).
+-/
+set_option linter.unusedSimpArgs false
 namespace Psi.PData
-theorem placeholder11 : PySlice.all = ⟨none, none, none⟩ := rfl
+
+/-- Python's `l[start:stop]` for a list of length `n` (unit step): drop the clamped start, keep up to the clamped stop. -/
+def pySliceList {α} (l : List α) (s : PySlice) : List α :=
+  (l.take (stopNat s l.length)).drop (startNat s l.length)
+
+theorem t_length (a : PD) : a.t.length = a.nTime := by simp [PD.t]
+
+private theorem t_slice (s0 : Int) (fs : Rat) (n a b : Nat) (hb : b ≤ n) :
+    (List.range (b - a)).map (fun (j : Nat) => (((s0 + (a : Int)) + (j : Int) : Int) : Rat) / fs) =
+      (((List.range n).map fun (j : Nat) => ((s0 + (j : Int) : Int) : Rat) / fs).take b).drop a := by
+  apply List.ext_getElem
+  · simp; omega
+  · intro i h1 h2
+    simp at h1 h2 ⊢
+    rw [Rat.add_assoc]
+
+/-- **Time base of a contiguous slice.** For every well-formed 1-, 2- or 3-D annotated array and every
+unit-step slice `x[..., start:stop]` — `start`, `stop` any integers or `None`, positive, negative or out of
+range — indexing succeeds and the time axis of the result is the slice of the time axis; rate, channel labels
+and metadata are untouched and the time-axis length is the number of selected samples. -/
+theorem unit_slice_time (a : PD) (hwf : WF a) (s : PySlice) (hunit : s.step = none ∨ s.step = some 1) :
+    ∃ r, getitem a (.tuple [.ellipsis, .slice s]) = .ok (.arr r) ∧
+      r.t = pySliceList a.t s ∧ r.fs = a.fs ∧ r.channel = a.channel ∧ r.metadata = a.metadata ∧
+      r.shape = a.shape.dropLast ++ [stopNat s a.nTime - startNat s a.nTime] := by
+  have hs : s.step.getD 1 = 1 := by rcases hunit with h | h <;> simp [h]
+  have hfs : ∀ fs : Rat, timeFs fs s = fs := by
+    intro fs; rcases hunit with h | h <;> simp [timeFs, h]
+    grind
+  cases hwf with
+  | d1 n data s0 fs lab m hd =>
+    obtain ⟨d, hd⟩ := getitem_tslice_1d data s0 fs s 1 _ n lab m (by omega) hs (slicePositions_unit s n hs)
+    refine ⟨_, hd, ?_, ?_, rfl, rfl, ?_⟩
+    · simp only [PD.t, PD.nTime, pySliceList, timeS0, hfs, List.length_map, List.length_range, List.getLast?_singleton,
+        Option.getD_some, List.length_range']
+      exact t_slice s0 fs n _ _ (stopNat_le s n)
+    · exact hfs fs
+    · simp [PD.nTime]
+  | d2 c n data s0 fs l m hd hl =>
+    obtain ⟨d, hd⟩ := getitem_tslice_2d data s0 fs s 1 _ c n l m (by omega) hs (slicePositions_unit s n hs)
+    refine ⟨_, hd, ?_, ?_, rfl, rfl, ?_⟩
+    · simp only [PD.t, PD.nTime, pySliceList, timeS0, hfs, List.length_map, List.length_range, List.getLast?_cons_cons,
+        List.getLast?_singleton, Option.getD_some, List.length_range']
+      exact t_slice s0 fs n _ _ (stopNat_le s n)
+    · exact hfs fs
+    · simp [PD.nTime]
+  | d3 e c n data s0 fs l ms hd hl hm =>
+    obtain ⟨d, hd⟩ := getitem_tslice_3d data s0 fs s 1 _ e c n l ms (by omega) hs (slicePositions_unit s n hs)
+    refine ⟨_, hd, ?_, ?_, rfl, rfl, ?_⟩
+    · simp only [PD.t, PD.nTime, pySliceList, timeS0, hfs, List.length_map, List.length_range, List.getLast?_cons_cons,
+        List.getLast?_singleton, Option.getD_some, List.length_range']
+      exact t_slice s0 fs n _ _ (stopNat_le s n)
+    · exact hfs fs
+    · simp [PD.nTime]
+
+/-- the same for the bare form `x[start:stop]` of a 1-D array. -/
+theorem unit_slice_time_1d (n : Nat) (data : List Nat) (s0 : Int) (fs : Rat) (lab : Label) (m : Md)
+    (s : PySlice) (hunit : s.step = none ∨ s.step = some 1) :
+    ∃ r, getitem ⟨[n], data, s0, fs, .one lab, .one m⟩ (.one (.slice s)) = .ok (.arr r) ∧
+      r.t = pySliceList (PD.t ⟨[n], data, s0, fs, .one lab, .one m⟩) s ∧ r.fs = fs ∧
+      r.channel = .one lab ∧ r.metadata = .one m ∧ r.shape = [stopNat s n - startNat s n] := by
+  have hs : s.step.getD 1 = 1 := by rcases hunit with h | h <;> simp [h]
+  have hfs : ∀ fs : Rat, timeFs fs s = fs := by
+    intro fs; rcases hunit with h | h <;> simp [timeFs, h]
+    grind
+  obtain ⟨d, hd⟩ := getitem_tslice_1d_bare data s0 fs s 1 _ n lab m (by omega) hs (slicePositions_unit s n hs)
+  refine ⟨_, hd, ?_, hfs fs, rfl, rfl, by simp⟩
+  simp only [PD.t, PD.nTime, pySliceList, timeS0, hfs, List.length_map, List.length_range, List.getLast?_singleton,
+    Option.getD_some, List.length_range']
+  exact t_slice s0 fs n _ _ (stopNat_le s n)
+
+/-- **A strided slice divides the rate.** `x[..., start:stop:k]` with `k ≥ 1` succeeds on every well-formed array,
+the rate becomes `fs / k`, labels and metadata are untouched, and the time-axis length is `len(range(start', stop', k))`.
+(The first-sample index after a strided slice is not part of the claim.) -/
+theorem strided_rate (a : PD) (hwf : WF a) (s : PySlice) (k : Int) (hk : 1 ≤ k) (hs : s.step = some k) :
+    ∃ r, getitem a (.tuple [.ellipsis, .slice s]) = .ok (.arr r) ∧
+      r.fs = a.fs / (k : Rat) ∧ r.channel = a.channel ∧ r.metadata = a.metadata ∧
+      r.shape = a.shape.dropLast ++ [sliceLen (startNat s a.nTime) (stopNat s a.nTime) k] := by
+  have hs' : s.step.getD 1 = k := by simp [hs]
+  have hfs : ∀ fs : Rat, timeFs fs s = fs / (k : Rat) := by intro fs; simp [timeFs, hs]
+  cases hwf with
+  | d1 n data s0 fs lab m hd =>
+    obtain ⟨d, hd⟩ := getitem_tslice_1d data s0 fs s k _ n lab m (by omega) hs' (slicePositions_pos s n k (by omega) hs')
+    exact ⟨_, hd, hfs fs, rfl, rfl, by simp [PD.nTime]⟩
+  | d2 c n data s0 fs l m hd hl =>
+    obtain ⟨d, hd⟩ := getitem_tslice_2d data s0 fs s k _ c n l m (by omega) hs' (slicePositions_pos s n k (by omega) hs')
+    exact ⟨_, hd, hfs fs, rfl, rfl, by simp [PD.nTime]⟩
+  | d3 e c n data s0 fs l ms hd hl hm =>
+    obtain ⟨d, hd⟩ := getitem_tslice_3d data s0 fs s k _ e c n l ms (by omega) hs' (slicePositions_pos s n k (by omega) hs')
+    exact ⟨_, hd, hfs fs, rfl, rfl, by simp [PD.nTime]⟩
+
 end Psi.PData
